@@ -32,6 +32,8 @@ def opsC14 : List (String × Op) := [
     let nd ← a.int "nodata"
     let r := List.range ds.size
     pure [("model", upstreamSumModel ds data nd),
+          ("exact", (r.map fun j => upstreamSumExact ds data nd j).toArray),
+          ("flagged", (r.map fun j => if upsumFlagged ds data nd j then (1 : Int) else 0).toArray),
           ("spec", (r.map fun j => upstreamSumSpec ds data nd j).toArray),
           ("fixed", (r.map fun j => if upstreamSumFixed ds data nd j then (1 : Int) else 0).toArray)]),
   ("c14_fill_up", fun a => do
@@ -112,6 +114,25 @@ def opsC14 : List (String × Op) := [
       if isValid ds i then optOrMissing (walkDist ds mask step (ds.size + 1) i) else -9999
     pure [("model", streamDistanceModel ds seq mask step), ("spec", spec.toArray),
           ("exact", ofBool exact), ("topo", ofBool (isTopo ds seq))]),
+  ("c14_smooth_rivlen", fun a => do
+    let ds ← a.nats "ds"
+    let um ← a.nats "usmain"
+    let riv := (← a.ints "rivlen").map fun (v : Int) => (v : Rat)
+    let minLen : Rat := ((← a.int "min_rivlen") : Int)
+    let nd : Rat := ((← a.int "nodata") : Int)
+    let mw ← a.nat "max_window"
+    let (out, exact) := smoothRivlenModel ds um riv minLen mw nd
+    let n := mw / 2
+    let r := List.range ds.size
+    -- cells that lie in the largest window ever tried (half-width n-1) of some cell holding a value
+    let touch := r.map fun j => if r.any (fun i => riv[i]! != nd && (rivSlice ds um n (n - 1) i).contains j)
+      then (1 : Int) else 0
+    -- the hypotheses of `smooth_rivlen_total`
+    let nodup := r.all fun i => (window ds um none n i).eraseDups.length == (window ds um none n i).length
+    let inb := r.all fun i => (window ds um none n i).all fun k => decide (k < ds.size)
+    pure [("model.num", out.map fun q => q.num), ("model.den", out.map fun q => (q.den : Int)),
+          ("exact", ofBool exact), ("touch", touch.toArray), ("nodup", ofBool (nodup && inb)),
+          ("usmain_ok", ofBool (usMainOK ds um))]),
   ("c14_hand", fun a => do
     let ds ← a.nats "ds"
     let seq ← a.natList "seq"
